@@ -25,7 +25,8 @@ ASSUMPTIONS = [
     "canonical fragment as delimited in DESIGN.md Appendix A (no call-shaped group inside a parameter list; a body's closing brace is not immediately followed by an opening brace; Python suites indented deeper than the header line; no one-line defs)",
     "function discovery (which token sequences are headers) is tied by correspondence and by C13-C15; the theorem covers layout -> measurements",
 ]
-regen = C15.regen
+import regen_all
+regen = regen_all.patterns_and_logic
 REGRESS = [
     ("TypeScript", "function f(a: number) {\n  x = 1;\n}\n"),                                  # F5
     ("JavaScript", "function f() {\n  function g() {\n    y;\n  }\n  x;\n}\n"),              # F6
@@ -34,6 +35,7 @@ REGRESS = [
     ("Python", "def f():\n    x = 1\n    def g():\n        y = 2\n"),                          # F9
     ("Python", "class A:\n    async def f(self):\n        x = 1\n        return x\n"),         # F10
     ("Python", "def f():\n    t = '''a\n      b\n    '''\n    y = 2\n"),                        # multi-line string
+    ("TypeScript", "function outer(a: number): number {\n  const v = a > 1 ? compute(a) : other;\n  if (v) {\n    x = 1;\n  }\n  return v;\n}\ninterface I {\n  foo(): string;\n  bar(x: number): void;\n}\nconst o = {\n  k: 1,\n};\n"),   # F24
 ]
 
 
@@ -95,6 +97,7 @@ def regress_expect():
         (REGRESS[4][0], REGRESS[4][1], [("f", 2), ("g", 2)]),
         (REGRESS[5][0], REGRESS[5][1], [("f", 3)]),
         (REGRESS[6][0], REGRESS[6][1], [("f", 5)]),
+        (REGRESS[7][0], REGRESS[7][1], [("outer", 7)]),
     ]
 
 
